@@ -1,4 +1,5 @@
 from __future__ import annotations
+import re
 
 from copy import deepcopy
 from enum import Enum
@@ -477,9 +478,10 @@ def get_kern_from_ekern(ekern_content: str) -> str:
 
         ```
     """
-    content = ekern_content
-    for header in HEADERS:  # **ekern -> **kern, **etext -> **text, ...
-        content = content.replace(f"**e{header[2:]}", header)
+    extended_headers = {f"**e{header[2:]}": header for header in HEADERS}  # **ekern -> **kern, **etext -> **text, ...
+    # only a cell that IS an extended header is renamed: free text mentioning '**ekern' (a comment, a lyric) is left as it is
+    whole_cell = re.compile(r'(?<![^\t\r\n])(?:' + '|'.join(re.escape(name) for name in extended_headers) + r')(?![^\t\r\n])')
+    content = whole_cell.sub(lambda match: extended_headers[match.group(0)], ekern_content)
     content = content.replace(TOKEN_SEPARATOR, "")
     content = content.replace(DECORATION_SEPARATOR, "")
 
